@@ -83,6 +83,70 @@ def main(argv):
                 if out["kind"] != "RET":
                     c.violation(label + ": the agent's encrypted reply to %s was not read: %s" % (st["op"], out.get("exc")),
                                 {"scenario": dict(sc, steps=[st]), "outcome": out}, key="api-reply-undecryptable")
+    # ---- a key change that is REFUSED leaves the session as it was: SnmpV3ClientSocket driven directly; set_keys with an accepted
+    # auth key and a refused privacy key (empty password, wrong size) raises, and the requests after it still decrypt under
+    # the key installed before, with the salt counter going on
+    hist = []
+    for auth, priv in (("md5", "des"), ("md5", "aes"), ("sha1", "des"), ("sha1", "aes")):
+        ks = 16 if auth == "md5" else 20
+        for bad in ([0, ""], [1, gen.rbytes(rng, ks - 3, False).hex()], [2, gen.rbytes(rng, ks + 1, False).hex()]):
+            eng = (b"\x80\x00\x1f\x88" + gen.rbytes(rng, 8, False)).hex()
+            hist.append({"user": "cuser", "auth": [auth, 1, gen.rbytes(rng, ks, False).hex()], "priv": [priv, 1, gen.rbytes(rng, ks, False).hex()],
+                         "engine_id": eng, "agent_engine_id": eng, "bad_priv": bad})
+    resh, logh = vf.run_api_worker("C11", {"socket_histories": hist, "model_exe": v3exe})
+    if resh is None:
+        c.errors.append("API worker failed: " + logh[-1500:])
+    else:
+        for h, rec in zip(hist, resh["histories"]):
+            c.count(("refused-set-keys", h["auth"][0], h["priv"][0], h["bad_priv"][0]), True)
+            label = "%s+%s socket, set_keys with a refused privacy key (type %d, %d octets)" % (h["auth"][0], h["priv"][0], h["bad_priv"][0], len(h["bad_priv"][1]) // 2)
+            if rec.get("error"):
+                c.errors.append("socket history failed: " + rec["error"])
+                continue
+            if rec["set_keys"] != "ValueError":
+                c.violation(label + ": not refused with ValueError (%s)" % rec["set_keys"], {"history": h, "record": rec}, key="refused-set-keys:accepted")
+            salts = []
+            for k, q in enumerate(rec["requests"]):
+                if q.get("error") or q.get("decrypt_error") or not q.get("pdu") or not q.get("flags", 0) & 2:
+                    c.violation(label + ": request %d (%s the refusal) does not decrypt to a scoped PDU under the key installed before: %s"
+                                % (k, "before" if k == 0 else "after", q.get("error") or q.get("decrypt_error") or "flags %s" % q.get("flags")),
+                                {"history": h, "request": {kk: q.get(kk) for kk in ("flags", "priv", "decrypt_error", "error")}}, key="refused-set-keys:key-changed")
+                    break
+                if any(bytes.fromhex(q.get("padding", ""))) or len(q.get("padding", "")) // 2 >= (8 if h["priv"][0] == "des" else 16):
+                    c.violation(label + ": request %d padding %s" % (k, q.get("padding")), {"history": h}, key="refused-set-keys:padding")
+                salts.append(int(q["priv"][8:] if h["priv"][0] == "des" else q["priv"], 16))
+            # the model's socket (Model.V3: v3_push_pdu, v3_set_keys_st) replayed on the same history, octet for octet
+            if len(salts) == 3:
+                from lib import v3replay
+                scen = v3replay.scen
+                k = scen.V3Keys(h, bytes.fromhex(h["engine_id"]))
+                a, p, b = h["auth"], h["priv"], h["bad_priv"]
+                ac, pc = v3replay.ALGC[a[0]], v3replay.PRIVC[p[0]]
+                q0 = rec["requests"][0]
+                sess = "/".join([h["engine_id"], "0", "0", h["user"].encode().hex(), str(ac), k.auth_key.hex(), str(pc), k.priv_key.hex(),
+                                 str(salts[0]), "0", "0"])
+                ok_model = True
+                for j, q in enumerate(rec["requests"]):
+                    if j == 1:
+                        r = vf.run_lines(v3exe, ["v3setkeys %s %s %d %s %d %s %d" % (sess, h["user"].encode().hex(), ac | (a[1] << 6), a[2], pc | (b[0] << 6), b[1] or "-", 0)])[0]
+                        if not r.startswith("ERR InvalidKey "):
+                            ok_model = False
+                            c.broken = list(c.broken) + ["correspondence (refused set_keys): the model says `%s` to the key change the socket refused (%s)" % (r[:60], label)]
+                            break
+                        sess = r.split(" ")[-1]
+                    rid = q["pdu"]["request_id"]
+                    r = vf.run_lines(v3exe, ["v3emit %s get:%d:%s %d" % (v3replay.with_fields(sess, rid=rid), rid, "2b06010201010500", q["msg_id"])])[0]
+                    f = r.split(" ")
+                    if f[0] != "OK" or f[1] != q["raw"]:
+                        ok_model = False
+                        if not any(x.startswith("correspondence (refused set_keys)") for x in c.broken):
+                            c.broken = list(c.broken) + ["correspondence (refused set_keys): request %d of the history: the model emits `%s`, the socket emitted `%s` (%s)"
+                                                         % (j, r[:100], q["raw"][:100], label)]
+                        break
+                    sess = f[-1]
+                c.coverage["refused_set_keys_histories_reproduced_by_model"] = c.coverage.get("refused_set_keys_histories_reproduced_by_model", 0) + (1 if ok_model else 0)
+            if len(salts) == 3 and not (salts[1] == salts[0] + 1 and salts[2] == salts[1] + 1):
+                c.violation(label + ": the salt counter does not go on across the refused key change: %s" % salts, {"history": h, "salts": salts}, key="refused-set-keys:salt")
     return c.finish(
         rule="%d privacy histories (DES and AES-128): 1..7 interleaved encrypts of Get/GetNext/GetBulk scoped PDUs (OIDs of 2..800 arcs, context engine ids "
              "0..32 octets, boots/time up to 2^32-1), decrypts of garbage (wrong sizes, short salts) and decrypts of genuine agent-encrypted "
@@ -93,4 +157,45 @@ def main(argv):
 
 def api_main(g, job):
     import scen
-    return scen.api_main_generic(g, job)
+    if "socket_histories" not in job:
+        return scen.api_main_generic(g, job)
+    import time
+    import apilib
+    model = apilib.ModelProc(job["model_exe"])
+    out = []
+    code = {"md5": 1, "sha1": 2, "des": 1, "aes": 2}
+    try:
+        for h in job["socket_histories"]:
+            rec = {"requests": []}
+            agent = apilib.Agent(None)
+            try:
+                eng = bytes.fromhex(h["engine_id"])
+                keys = scen.V3Keys(h, eng)
+                a, p, b = h["auth"], h["priv"], h["bad_priv"]
+                sock = g.fast.SnmpV3ClientSocket("127.0.0.1:%d" % agent.port, eng, h["user"], code[a[0]] | (a[1] << 6), bytes.fromhex(a[2]),
+                                                 code[p[0]] | (p[1] << 6), bytes.fromhex(p[2]), 0, 0, 0, 50_000_000)
+
+                def one():
+                    sock.send_get("1.3.6.1.2.1.1.5.0")
+                    for _w in range(60):
+                        d = agent.take()
+                        if d:
+                            return dict(scen.summarise(scen.parse_request(d[0], keys, model)), raw=d[0].hex())
+                        time.sleep(0.005)
+                    return {"error": "nothing was sent"}
+                rec["requests"].append(one())
+                try:
+                    sock.set_keys(h["user"], code[a[0]] | (a[1] << 6), bytes.fromhex(a[2]), code[p[0]] | (b[0] << 6), bytes.fromhex(b[1]))
+                    rec["set_keys"] = "accepted"
+                except BaseException as e:  # noqa: BLE001
+                    rec["set_keys"] = apilib.exc_class(e)
+                rec["requests"].append(one())
+                rec["requests"].append(one())
+            except BaseException as e:  # noqa: BLE001
+                rec["error"] = repr(e)
+            finally:
+                agent.close()
+            out.append(rec)
+    finally:
+        model.close()
+    return {"histories": out}
